@@ -483,6 +483,47 @@ def run_dispatch():
     return None
 
 
+def run_dataframe_fitted():
+    """An estimator fitted on a pandas DataFrame (so it knows feature names) behind SklearnWrapper, in a program that turns warnings into
+    errors AFTER importing the library (pytest -W error, warnings.simplefilter('error')): the canonical dicts must still come back,
+    for single observations, batches and through validate_model_function."""
+    try:
+        import pandas as pd
+        from sklearn.linear_model import LogisticRegression
+        from sklearn.tree import DecisionTreeRegressor
+    except Exception:
+        return None
+    from ixai.utils.wrappers import SklearnWrapper
+    from ixai.utils.validators.model import validate_model_function
+    rs = np.random.RandomState(3)
+    X = pd.DataFrame({'a': rs.normal(size=40), 'b': rs.normal(size=40), 'c': rs.normal(size=40)})
+    yc = (X['a'] + X['b'] > 0).astype(int)
+    with warnings.catch_warnings():
+        warnings.simplefilter('ignore')
+        clf = LogisticRegression().fit(X, yc)
+        reg = DecisionTreeRegressor(max_depth=3, random_state=0).fit(X, X['a'] * 2 - X['c'])
+    rows = [dict(X.iloc[i]) for i in range(4)]
+    rows = [{k: float(v) for k, v in r.items()} for r in rows]
+    for name, fn, raw in (('LogisticRegression.predict_proba', clf.predict_proba, lambda A: clf.predict_proba(A)),
+                          ('DecisionTreeRegressor.predict', reg.predict, lambda A: reg.predict(A))):
+        with warnings.catch_warnings():
+            warnings.simplefilter('ignore')
+            want = [canon(o) for o in raw(np.array([[r['a'], r['b'], r['c']] for r in rows]))]
+        for how, mk in (('SklearnWrapper', lambda: SklearnWrapper(fn, feature_names=['a', 'b', 'c'])), ('validate_model_function', lambda: validate_model_function(fn))):
+            with warnings.catch_warnings():
+                warnings.simplefilter('error')
+                try:
+                    w = mk()
+                    single = [w(dict(r)) for r in rows]
+                    batch = w([dict(r) for r in rows])
+                except Exception as e:
+                    return 'C14:sklearn:warnings-as-errors', f'{name} via {how} under warnings.simplefilter("error") raised {type(e).__name__}: {e}'
+            for got in (single, batch):
+                if len(got) != len(want) or any(not same_canon(g, w_, tol=1e-9) for g, w_ in zip(got, want)):
+                    return 'C14:sklearn:dataframe-fitted', f'{name} via {how}: {got!r} vs {want!r}'
+    return None
+
+
 @st.composite
 def synth_cases(draw):
     d = draw(st.integers(1, 4))
@@ -563,6 +604,9 @@ def replay(sub, case):
     if sub == 'torch_model':
         err = run_torch_models()
         return Result(err is None, key=err[0] if err else None, detail=err[1] if err else None)
+    if sub == 'dataframe_fitted':
+        err = run_dataframe_fitted()
+        return Result(err is None, key=err[0] if err else None, detail=err[1] if err else None)
     err = run_dispatch()
     return Result(err is None, key=err[0] if err else None, detail=err[1] if err else None)
 
@@ -577,6 +621,10 @@ def run(ctx):
     ctx.count(1, 'dispatch')
     if err:
         ctx.violation('dispatch', err[0], err[1], {})
+    err = run_dataframe_fitted()
+    ctx.count(1, 'dataframe_fitted')
+    if err:
+        ctx.violation('dataframe_fitted', err[0], err[1], {})
     models, skipped, X = sklearn_models(ctx.thorough())
     ctx.extra['sklearn_estimators_checked'] = [n for n, _ in models]
     ctx.extra['sklearn_estimators_skipped'] = skipped[:80]
